@@ -173,6 +173,51 @@ def run(tier):
                 elif open(pth, 'rb').read() != ref:
                     chk.fail(f'source:{kind}:crossed-names-differ', case, 'file differs from the one written from inline data: the '
                                                                          'channels were not fed from the data sets they name')
+        # a declared cast that narrows integers, with values outside the target's range: whatever such a cast makes of
+        # them (numpy wraps), it makes the same of them for every kind of source
+        for si in range(4 if tier == 'quick' else 30):
+            rows = R.choice([3, 5])
+            spec = filegen.gen_spec(R, n_lf=1, small=True, rows=rows, vrl=8192, with_index=False, kinds=set())
+            done = 0
+            for lf in spec['lfs']:
+                for o in lf['objects']:
+                    if o['kind'] == 'channel':
+                        o['layout'] = 'plain'
+                        if o.get('dataset_name') and o['dataset_name'].startswith('/'):
+                            o['dataset_name'] = o['dataset_name'].strip('/').replace('/', '_')
+                        src_dt, tgt = R.choice([('int32', 'uint16'), ('int32', 'int16'), ('int32', 'uint8'), ('uint32', 'int8'),
+                                                ('int16', 'uint8'), ('uint16', 'int16')])
+                        shape = o['data'].shape
+                        pool = [70000, -1, -50000, 65536, 40000, 300, -129, 255, 256, 2 ** 31 - 1, 5, 0]
+                        info = _np.iinfo(src_dt)
+                        vals = [min(max(R.choice(pool), int(info.min)), int(info.max)) for _ in range(int(_np.prod(shape)))]
+                        o['dtype'] = src_dt
+                        o['data'] = _np.array(vals, dtype=src_dt).reshape(shape)
+                        o['cast_dtype'] = tgt
+                        o['index_like'] = None
+                        done += 1
+            if not done:
+                continue
+            spec['hc'] = False
+            spec['write'].update({'data_kind': 'dict', 'input_chunk_size': None, 'output_chunk_size': 2**20, 'from_idx': 0, 'to_idx': None})
+            ref = filegen.write(spec, tmp, fname='ref.dlis')
+            if ref['status'] != 'ok':
+                chk.count(f'narrowing-cast:reference-write-failed:{ref["error"]}')
+                continue
+            for kind in ('inline', 'struct', 'hdf5'):
+                for ic in (None, 2):
+                    s2 = dict(spec)
+                    s2['write'] = dict(spec['write'], data_kind=kind, input_chunk_size=ic,
+                                       source_opts={'perm_seed': R.randrange(1000), 'extra': R.choice([0, 2]), 'exact': False, 'tmpdir': tmp})
+                    res = filegen.write(s2, tmp, fname='w.dlis')
+                    case = {'spec_index': si, 'spec': filegen.describe(spec), 'source': kind, 'input_chunk_size': ic,
+                            'casts': 'integers narrowed, values outside the target range'}
+                    chk.case('narrowing-cast', nontrivial_key=('nc', si, kind, ic), sample={'source': kind, 'status': res['status']})
+                    chk.count(f'narrowing-cast:{kind}:{res["status"]}')
+                    if res['status'] != 'ok':
+                        chk.fail(f'source:{kind}:rejected', case, f'write raised {res["error"]} ({res["stage"]})')
+                    elif res['data'] != ref['data']:
+                        chk.fail(f'source:{kind}:narrowing-cast-differs', case, 'file differs from the one written from the dict source')
         # an EMPTY data set name is a name like any other: the channel is fed from the data set called '' of a dict (a
         # structured array or HDF5 file cannot hold one), also when the dict has a data set named like the channel
         for si in range(6 if tier == 'quick' else 40):
